@@ -571,22 +571,33 @@ func (d *driver) anyHang() bool {
 // stack of the goroutine that runs the call (or, if that goroutine only waits,
 // of any other goroutine).
 func hangSite(dump string) string {
+	if f := kitFrames(dump); len(f) > 0 {
+		return f[0]
+	}
+	return ""
+}
+
+// kitFrames lists the kit functions on the stack of the goroutine that runs
+// the call (innermost first); if that goroutine has none (it only waits), those
+// of the first other goroutine that has some.
+func kitFrames(dump string) []string {
 	blocks := strings.Split(dump, "\n\n")
-	site := func(b string) string {
+	frames := func(b string) []string {
+		var out []string
 		for _, l := range strings.Split(b, "\n") {
 			if strings.HasPrefix(l, kitPrefix) {
 				if k := strings.LastIndex(l, "("); k > 0 {
 					l = l[:k]
 				}
-				return display(l)
+				out = append(out, display(l))
 			}
 		}
-		return ""
+		return out
 	}
 	for _, b := range blocks {
 		if strings.Contains(b, "guard.(*Ctx).Call(") {
-			if s := site(b); s != "" {
-				return s
+			if f := frames(b); len(f) > 0 {
+				return f
 			}
 		}
 	}
@@ -594,8 +605,46 @@ func hangSite(dump string) string {
 		if strings.Contains(b, "guard.") {
 			continue
 		}
-		if s := site(b); s != "" {
-			return s
+		if f := frames(b); len(f) > 0 {
+			return f
+		}
+	}
+	return nil
+}
+
+// commonSite is the innermost kit function present in every dump: a spinning
+// loop is sampled in different leaf functions, its own frame is in all samples.
+func commonSite(dumps []string) string {
+	var sets [][]string
+	for _, d := range dumps {
+		if f := kitFrames(d); len(f) > 0 {
+			sets = append(sets, f)
+		}
+	}
+	if len(sets) == 0 {
+		return ""
+	}
+	for _, cand := range sets[0] {
+		all := true
+		for _, o := range sets[1:] {
+			found := false
+			for _, x := range o {
+				found = found || x == cand
+			}
+			all = all && found
+		}
+		if all {
+			return cand
+		}
+	}
+	return sets[0][0]
+}
+
+// confirmedKey returns the key of an already confirmed hang whose site is on the stack of dump.
+func (d *driver) confirmedKey(dump string) string {
+	for _, f := range kitFrames(dump) {
+		if d.isHanging(f + "/hang") {
+			return f + "/hang"
 		}
 	}
 	return ""
@@ -920,8 +969,11 @@ func (d *driver) judgeDeath(t task, seq uint64, hung bool, stuck *protoMsg, stde
 	}
 	if hung {
 		if stuck != nil && stuck.Seq == seq {
-			key := hangKey(stuck.Entry, stuck.Msg)
-			if d.isHanging(key) {
+			key := d.confirmedKey(stuck.Msg)
+			if key == "" && d.isHanging(stuck.Entry+"/hang") {
+				key = stuck.Entry + "/hang"
+			}
+			if key != "" {
 				// same site as a hang already confirmed with the full ceiling
 				d.mu.Lock()
 				d.stalls[key]++
@@ -943,8 +995,10 @@ func (d *driver) judgeDeath(t task, seq uint64, hung bool, stuck *protoMsg, stde
 		n := 0
 		var last uptoResult
 		dump := ""
+		var dumps []string
 		if stuck != nil && stuck.Seq == seq {
 			dump = stuck.Msg
+			dumps = append(dumps, stuck.Msg)
 		}
 		for i := 0; i < 3; i++ {
 			last = d.runSuspect(t, seq, "", "", d.ceil)
@@ -954,11 +1008,21 @@ func (d *driver) judgeDeath(t task, seq uint64, hung bool, stuck *protoMsg, stde
 			if hangSite(last.dump) != "" || dump == "" {
 				dump = last.dump
 			}
+			dumps = append(dumps, last.dump)
 			n++
 		}
 		if n == 3 {
 			last.dump = dump
-			key := hangKey(last.entry, last.dump)
+			key := last.entry + "/hang"
+			if s := commonSite(dumps); s != "" {
+				key = s + "/hang"
+			}
+			for _, dd := range dumps {
+				if k := d.confirmedKey(dd); k != "" {
+					key = k // another worker confirmed the same loop meanwhile
+					break
+				}
+			}
 			d.violation(a, t, "hang", key, fmt.Sprintf("%s did not return within %s on input %s (first seen in the sweep, then confirmed on 3 separate isolated re-runs)\n  %s", last.entry, d.ceil, last.input, strings.ReplaceAll(stackOfCall(last.dump), "\n", "\n  ")), last.entry, last.input)
 			d.mu.Lock()
 			d.hanging[key] = true
